@@ -183,12 +183,21 @@ class Result:
 def _worker_init():
     os.environ.setdefault("JAX_ENABLE_X64", "1")
     os.environ.setdefault("JAX_PLATFORMS", "cpu")
-    # pin every worker to one core *before* jax is imported: XLA sizes its thread pools from the
-    # schedulable CPUs, and 16 workers x 16 threads thrash otherwise
+    # XLA sizes its intra-op thread pools from the schedulable CPUs when the backend is created, and
+    # 16 workers x 16 threads thrash.  So: restrict to one core, create the backend, then let every
+    # thread of this process roam again (pool sizes stay 1, nothing stays pinned).
     try:
         cpus = sorted(os.sched_getaffinity(0))
-        if cpus:
+        if len(cpus) > 1:
             os.sched_setaffinity(0, {cpus[os.getpid() % len(cpus)]})
+            import jax
+
+            jax.devices()
+            for tid in os.listdir("/proc/self/task"):
+                try:
+                    os.sched_setaffinity(int(tid), set(cpus))
+                except Exception:
+                    pass
     except Exception:
         pass
 
